@@ -15,6 +15,19 @@ EXTRA = [
 ]
 
 
+EXTRA += [
+    # zero-argument super() in methods whose first parameter is positional-only, with further parameters behind the `/`
+    gen_class.OBSERVE + gen_class.BASE_DEFS +
+    "class P(B):\n    def chain(self, /, other=None, *rest, tag='t'):\n        return ['P', tag] + super().chain()\n"
+    "    def twice(self, /, other):\n        out = []\n        for _ in range(2):\n            out.append(super().chain())\n        return out, other\n"
+    "    @classmethod\n    def make(cls, /, label):\n        return (label, cls.__name__, super().__init_subclass__())\n"
+    "_show(P)\nprint(P().chain(P()), P().twice('o'), P.make('L'))\n",
+    gen_class.OBSERVE + gen_class.BASE_DEFS +
+    "class Q(C):\n    def __init__(self, /, name, *, flag=False):\n        super().__init__()\n        self.name = name\n"
+    "    def chain(self, other, /):\n        return ['Q', other] + super().chain()\nq = Q('n')\nprint(q.name, q.chain('x'))\n",
+]
+
+
 def run(chk, build, replay=None):
     common.standard_proof_part(chk, build, VFILES)
     chk.trusted += [
